@@ -106,7 +106,9 @@ Proof.
     intros Hn. apply Bool.eqb_prop in E. generalize dependent (diy_l (is_leap y)). intros; lia.
 Qed.
 
-(* ------------------------------------------------------------------ Rust: ordinal_to_ymd as the code is *)
+(* ------------------------------------------------------------------ Rust: ordinal_to_ymd as the code is
+   (`ord <= MONTHS_OFFSETS[leap][i]` — finding rs-ordinal-month-end repaired: before the repair the comparison was `<` and
+   the theorem below was false on the last day of every month, witness 2021-031) *)
 Definition rs_ord_l (l : bool) (n : Z) : option (Z * Z) :=
   if n <? 1 then None else if n >? diy_l l then None
   else rs_ord_loop 14 (tidx2 RS_MONTHS_OFFSETS (Z.b2z l)) n 1.
@@ -123,13 +125,12 @@ Qed.
 Definition is_month_end_yday (l : bool) (n : Z) : bool :=
   let '(m, d) := md_of_yday_l l n in d =? dim_l l m.
 
-(* exact behaviour of the Rust loop on every day of the year: right except on month ends, where the day is 0 of the
-   NEXT month (or the ordinal is refused on the last day of the year) *)
+(* exact behaviour of the Rust loop on every day of the year, month ends included: month and day of the reference *)
 Definition rs_ord_ok (l : bool) (n : Z) : bool :=
   let '(m, d) := md_of_yday_l l n in
   match rs_ord_l l n with
-  | Some (m', d') => if d =? dim_l l m then (m' =? m + 1) && (d' =? 0) && (m <? 12) else (m' =? m) && (d' =? d)
-  | None => (d =? dim_l l m) && (m =? 12)
+  | Some (m', d') => (m' =? m) && (d' =? d)
+  | None => false
   end.
 Lemma rs_ord_ok_f : forall_range (rs_ord_ok false) 1 365 = true. Proof. vm_compute. reflexivity. Qed.
 Lemma rs_ord_ok_t : forall_range (rs_ord_ok true) 1 366 = true. Proof. vm_compute. reflexivity. Qed.
@@ -137,32 +138,34 @@ Lemma rs_ord_ok_t : forall_range (rs_ord_ok true) 1 366 = true. Proof. vm_comput
 Lemma rs_ord_ok_all l n : 1 <= n <= diy_l l -> rs_ord_ok l n = true.
 Proof. intros H. destruct l; [apply (forall_range_spec _ _ _ rs_ord_ok_t) | apply (forall_range_spec _ _ _ rs_ord_ok_f)]; cbn in H; lia. Qed.
 
-Theorem rs_ordinal_partial y n : 0 <= y -> 1 <= n <= days_in_year y ->
-  is_month_end_yday (is_leap y) n = false ->
+(* full strength: every year, every day of the year *)
+Theorem rs_ordinal_spec y n : 0 <= y -> 1 <= n <= days_in_year y ->
   rs_ordinal_to_ymd y n false = Some (ord2ymd (ymd2ord y 1 1 + n - 1)).
 Proof.
-  intros Hy H NE. rewrite ord2ymd_yday by assumption. rewrite rs_ordinal_strict_l by assumption.
+  intros Hy H. rewrite ord2ymd_yday by assumption. rewrite rs_ordinal_strict_l by assumption.
   rewrite days_in_year_l in H. pose proof (rs_ord_ok_all _ _ H) as E. unfold rs_ord_ok in E.
-  unfold is_month_end_yday in NE. unfold md_of_yday.
-  destruct (md_of_yday_l (is_leap y) n) as [m d]. cbn [fst snd]. rewrite NE in E.
-  destruct (rs_ord_l (is_leap y) n) as [[m' d']|]; [|lia].
+  unfold md_of_yday.
+  destruct (md_of_yday_l (is_leap y) n) as [m d]. cbn [fst snd].
+  destruct (rs_ord_l (is_leap y) n) as [[m' d']|]; [|discriminate].
   assert (m' = m) by lia. assert (d' = d) by lia. subst. reflexivity.
 Qed.
 
-(* on a month end the Rust conversion never yields a valid date: the glue then raises ValueError *)
-Theorem rs_ordinal_month_end_rejected y n : 0 <= y -> 1 <= n <= days_in_year y ->
-  is_month_end_yday (is_leap y) n = true ->
-  match rs_ordinal_to_ymd y n false with Some (y', m, d) => d = 0 | None => True end.
-Proof.
-  intros Hy H ME. rewrite rs_ordinal_strict_l by assumption.
-  rewrite days_in_year_l in H. pose proof (rs_ord_ok_all _ _ H) as E. unfold rs_ord_ok in E.
-  unfold is_month_end_yday in ME. destruct (md_of_yday_l (is_leap y) n) as [m d]. rewrite ME in E.
-  destruct (rs_ord_l (is_leap y) n) as [[m' d']|]; [lia|exact I].
-Qed.
+Example rs_ordinal_spec_hyps_satisfiable : 0 <= 2021 /\ 1 <= 31 <= days_in_year 2021 /\ is_month_end_yday (is_leap 2021) 31 = true.
+Proof. vm_compute. repeat split; discriminate. Qed.
 
-Theorem rs_ordinal_refuted : exists y n, 1 <= y /\ 1 <= n <= days_in_year y /\
-  rs_ordinal_to_ymd y n false <> Some (ord2ymd (ymd2ord y 1 1 + n - 1)).
-Proof. exists 2021, 31. split; [lia|]. split; [vm_compute; split; discriminate|]. vm_compute. discriminate. Qed.
+(* the former witnesses of the finding (month ends, last day of a common and of a leap year), now instances *)
+Theorem rs_ordinal_month_end_witnesses :
+  rs_ordinal_to_ymd 2021 31 false = Some (2021, 1, 31) /\ rs_ordinal_to_ymd 2021 365 false = Some (2021, 12, 31) /\
+  rs_ordinal_to_ymd 2020 60 false = Some (2020, 2, 29) /\ rs_ordinal_to_ymd 2020 366 false = Some (2020, 12, 31).
+Proof. vm_compute. repeat split; reflexivity. Qed.
+
+(* both backends agree on every existing day of every year *)
+Theorem rs_ordinal_eq_py y n : 0 <= y -> 1 <= n <= days_in_year y ->
+  exists m d, py_iso_ordinal_md y n = Ok (m, d) /\ rs_ordinal_to_ymd y n false = Some (y, m, d).
+Proof.
+  intros Hy H. rewrite py_ordinal_spec, rs_ordinal_spec by assumption.
+  rewrite ord2ymd_yday by assumption. cbn [fst snd]. eauto.
+Qed.
 
 (* out-of-range ordinals are refused *)
 Theorem rs_ordinal_reject y n : 0 <= y -> (n < 1 \/ n > days_in_year y) -> rs_ordinal_to_ymd y n false = None.
